@@ -194,4 +194,32 @@ Section Sorted.
     destruct (sample_valence_complete M c0 madd mltb misz R pick cfg Wf _ _ _ _ _ _ _ _ _ _ _ _ _ H Hr) as (g1' & E & V).
     injection E as <-. exists g1. split; [reflexivity|]. exact (V Rs).
   Qed.
+  (** ** the sorted graph as a whole (instantiating Resolve/SortGraphProofs.sort_graph): the relabelling is
+      injective, onto 0..n-1, and carries adjacency and every attribute but 'ez_isomer_atoms' along; the
+      returned graph is the sorted one (coarse) or the sorted one with atom names set (all-atom: same keys) *)
+  Theorem sample_sorted_graph target fuel rng start nm i0 m cw log rng' aa car gf :
+    sample_growth M c0 madd mltb misz R pick cfg target fuel rng start = Ok (nm, i0, m, cw, log, rng') ->
+    finalise_nx aa (to_nx m) car = Ok gf ->
+    exists g1 g2 mp, (if aa then Hydrogens.rebuild_h_atoms_default (to_nx m) car else Ok (to_nx m)) = Ok g1 /\
+      GraphOps.sort_nodes_by_attr g1 = Ok g2 /\ GraphOps.sort_mapping g1 = Ok mp /\
+      SortGraphProofs.inj_on (map_get mp) (node_keys g1) /\
+      Permutation (map (map_get mp) (node_keys g1)) (map Z.of_nat (seq 0 (length g1))) /\
+      node_keys g2 = map (map_get mp) (node_keys g1) /\
+      (forall a b, In a (node_keys g1) -> In b (node_keys g1) -> has_edge g2 (map_get mp a) (map_get mp b) = has_edge g1 a b) /\
+      (forall k key, In k (node_keys g1) -> key <> S "ez_isomer_atoms" -> node_get g2 (map_get mp k) key = node_get g1 k key) /\
+      node_keys gf = node_keys g2 /\ (aa = false -> gf = g2).
+  Proof.
+    intros H Hf. unfold finalise_nx in Hf.
+    destruct (if aa then Hydrogens.rebuild_h_atoms_default (to_nx m) car else Ok (to_nx m)) as [g1|] eqn:Hg1; cbn [bind] in Hf; [|discriminate].
+    destruct (GraphOps.sort_nodes_by_attr g1) as [g2|] eqn:Hs; cbn [bind] in Hf; [|discriminate].
+    assert (X : SquashDefs.wf_graph g1 /\ forall nd, In nd g1 -> aget (S "fragid") (na nd) <> None).
+    { destruct aa.
+      - destruct (sample_completed _ _ _ _ _ _ _ _ _ _ _ _ H Hg1) as (g1t & _ & _ & _ & _ & W' & F'). split; assumption.
+      - injection Hg1 as <-. destruct (sample_graph_facts _ _ _ _ _ _ _ _ _ _ H) as (W & _ & F). split; [exact W|]. intros nd Hnd. apply (F nd Hnd). }
+    destruct X as [W F].
+    destruct (SortGraphProofs.sort_graph g1 g2 W (SampleNumbering.gna_all_keys g1 (S "fragid") F) Hs) as (mp & E1 & E2 & E3 & E4 & E5 & E6).
+    exists g1, g2, mp. repeat split; try assumption.
+    - destruct aa; [now apply SampleNumbering.naming_keeps_keys|now injection Hf as <-].
+    - intros ->. now injection Hf as <-.
+  Qed.
 End Sorted.
